@@ -76,6 +76,7 @@ func runC11(e *Engine, g G, o RunOpt) RunInfo {
 	var scripts []NegScript
 	for _, c := range sc.Conns {
 		s := DefaultNeg()
+		s.ResumeOne = g.Pct("resume-spelled-1", 25)
 		s.SM = c.SrvSM
 		s.Enable = c.Enable
 		s.Resume = c.Resume
